@@ -6,6 +6,10 @@ import XcpProofs.MultiSource
 import XcpProofs.MultiSourceExample
 import XcpProofs.EndToEnd
 import XcpProofs.OptionIrrelevance
+import XcpProofs.Clash
+import XcpProofs.ClashExample
+import XcpProofs.MultiClash
+import XcpProofs.DerefOverlay
 /-! # C02 — exit 0 implies the destination tree mirrors the selected source tree
 
 Model slice: `targetBase` (cp's mapping rule), `walkEntry` (one operation per selected entry, by kind),
@@ -278,5 +282,116 @@ theorem driver_and_metadata_options_do_not_change_the_tree (fs : Fs) (o o' : Opt
 /-- `Cfg.sameShape` is agreement on exactly five fields; every other field is free -/
 example (c : Cfg) (w b : Nat) (x : Bool) : c.sameShape { c with workers := w, bsize := b, parblock := x, fsync := x, noPerms := x, ownership := x } :=
   ⟨rfl, rfl, rfl, rfl, rfl⟩
+
+/-- a destination that CLASHES with the source: for a destination made of directories and regular files (at every depth)
+that is not `Compatible` with the source — somewhere a source directory meets a regular file, a regular or special file
+meets a directory, or a symbolic link of the source meets anything that exists — the run exits non-zero (the model runs
+the operations in walk order and stops at the first that fails; those before it have run) -/
+theorem clashing_destination_exits_nonzero (fs : Fs) (c : Cfg) (hd : c.dereference = false) (hn : c.noClobber = false)
+    (src tb : RPath) (srcNode dstNode : Node) (fuel : Nat)
+    (hwf : FsEq fs fs) (hroot : fs.root.isDir = true)
+    (hsrc : PlainTarget fs src) (hsn : fs.root.getAt src.names = some srcNode)
+    (hcop : srcNode.Copyable fuel)
+    (htb : PlainTarget fs tb) (hne : tb.names ≠ [])
+    (hdst : fs.root.getAt tb.names = some dstNode) (hplain : dstNode.plainTree = true)
+    (hclash : ¬ Compatible (some dstNode) srcNode)
+    (hpar : ∃ es, fs.root.getAt tb.names.dropLast = some (.dir es))
+    (hun1 : ¬ src.names <+: tb.names) (hun2 : ¬ tb.names <+: src.names)
+    (hlen : src.names.length + fuel < 200 ∧ tb.names.length + fuel < 200) :
+    (execOps fs c (walkEntry fs c none src tb (fuel + 1) [] [])).exit = .err :=
+  clash_fails fs c hd hn src tb srcNode dstNode fuel hwf hroot hsrc hsn hcop htb hne hdst hplain hclash hpar hun1 hun2 hlen
+
+/-- C02 as stated — "on exit 0 the destination holds …" — with NO assumption about compatibility: for every destination
+that is absent or made of directories and regular files, exit status ok IMPLIES that the final file system is the
+initial one with the overlay at the target (a destination holding symbolic links or special files is outside this
+theorem: a link at a mapped position is the recorded finding F13) -/
+theorem exit_zero_implies_the_destination_is_overlaid (fs : Fs) (c : Cfg) (hd : c.dereference = false) (hn : c.noClobber = false)
+    (src tb : RPath) (srcNode : Node) (fuel : Nat)
+    (hwf : FsEq fs fs) (hroot : fs.root.isDir = true)
+    (hsrc : PlainTarget fs src) (hsn : fs.root.getAt src.names = some srcNode)
+    (hcop : srcNode.Copyable fuel)
+    (htb : PlainTarget fs tb) (hne : tb.names ≠ [])
+    (hplain : ∀ d, fs.root.getAt tb.names = some d → d.plainTree = true)
+    (hpar : ∃ es, fs.root.getAt tb.names.dropLast = some (.dir es))
+    (hun1 : ¬ src.names <+: tb.names) (hun2 : ¬ tb.names <+: src.names)
+    (hlen : src.names.length + fuel < 200 ∧ tb.names.length + fuel < 200)
+    (fs' : Fs) (hok : execOps fs c (walkEntry fs c none src tb (fuel + 1) [] []) = ⟨.ok, fs'⟩) :
+    FsEq fs' { fs with root := fs.root.setAt tb.names (Node.overlay (fs.root.getAt tb.names) srcNode) } :=
+  ok_implies_overlaid fs c hd hn src tb srcNode fuel hwf hroot hsrc hsn hcop htb hne hplain hpar hun1 hun2 hlen fs' hok
+
+/-- the hypotheses of `clashing_destination_exits_nonzero` are satisfiable together, and the model evaluated on that
+instance agrees with the theorem: the sibling before the clash is copied, the run fails, the clashing entry and the
+destination's other entry are kept -/
+example : (execOps ClashExample.exFs {} (walkEntry ClashExample.exFs {} none ClashExample.src ClashExample.tb
+      (ClashExample.fuel + 1) [] [])).exit = .err ∧
+    (execOps ClashExample.exFs {} (walkEntry ClashExample.exFs {} none ClashExample.src ClashExample.tb
+      (ClashExample.fuel + 1) [] [])).fs.root.getAt [MirrorExample.nD, MirrorExample.nS, ClashExample.nkeep] = some (.file 7) :=
+  ⟨ClashExample.instance_fails, ClashExample.instance_keeps_other_entry.1⟩
+
+/-- SEVERAL sources into an existing directory, one of whose targets clashes with its source: the run (`runSources`, each
+target base evaluated in the state the earlier sources left) exits non-zero -/
+theorem several_sources_one_clash_exits_nonzero (fs : Fs) (c : Cfg) (texts : GiTexts) (dest : RPath) (items : List CopySrc)
+    (fuel : Nat)
+    (hd : c.dereference = false) (hn : c.noClobber = false) (hg : c.gitignore = false)
+    (hnt : c.noTargetDir = false)
+    (hwf : FsEq fs fs)
+    (hdest : PlainTarget fs dest) (hdd : ∃ es, fs.root.getAt dest.names = some (.dir es))
+    (hfuel : fuel < walkFuel)
+    (hsrc : ∀ e ∈ items, PlainTarget fs e.path ∧ e.path.fileName = some e.base ∧
+      fs.root.getAt e.path.names = some e.node ∧ e.node.Copyable fuel ∧ e.path.names.length + walkFuel < 256)
+    (hnd : (items.map (·.base)).Nodup)
+    (hun : ∀ e ∈ items, ∀ e' ∈ items,
+      ¬ e.path.names <+: dest.names ++ [e'.base] ∧ ¬ dest.names ++ [e'.base] <+: e.path.names)
+    (hplain : ∀ e ∈ items, ∀ d, fs.root.getAt (dest.names ++ [e.base]) = some d → d.plainTree = true)
+    (hlen : dest.names.length + 1 + walkFuel < 256)
+    (hclash : ∃ e ∈ items, ¬ Compatible (fs.root.getAt (dest.names ++ [e.base])) e.node) :
+    (runSources fs c texts dest (items.map (·.path))).exit = .err :=
+  multi_run_clash_fails fs c texts dest items fuel hd hn hg hnt hwf hdest hdd hfuel hsrc hnd hun hplain hlen hclash
+
+/-- … and C02 for several sources with no compatibility assumed: when every existing target is made of directories and
+regular files, exit status ok IMPLIES that every target is overlaid with its source tree and nothing else has changed -/
+theorem several_sources_exit_zero_implies_overlaid (fs : Fs) (c : Cfg) (texts : GiTexts) (dest : RPath) (items : List CopySrc)
+    (fuel : Nat)
+    (hd : c.dereference = false) (hn : c.noClobber = false) (hg : c.gitignore = false)
+    (hnt : c.noTargetDir = false)
+    (hwf : FsEq fs fs)
+    (hdest : PlainTarget fs dest) (hdd : ∃ es, fs.root.getAt dest.names = some (.dir es))
+    (hfuel : fuel < walkFuel)
+    (hsrc : ∀ e ∈ items, PlainTarget fs e.path ∧ e.path.fileName = some e.base ∧
+      fs.root.getAt e.path.names = some e.node ∧ e.node.Copyable fuel ∧ e.path.names.length + walkFuel < 256)
+    (hnd : (items.map (·.base)).Nodup)
+    (hun : ∀ e ∈ items, ∀ e' ∈ items,
+      ¬ e.path.names <+: dest.names ++ [e'.base] ∧ ¬ dest.names ++ [e'.base] <+: e.path.names)
+    (hplain : ∀ e ∈ items, ∀ d, fs.root.getAt (dest.names ++ [e.base]) = some d → d.plainTree = true)
+    (hlen : dest.names.length + 1 + walkFuel < 256)
+    (fs' : Fs) (hok : runSources fs c texts dest (items.map (·.path)) = ⟨.ok, fs'⟩) :
+    FsEq fs' { fs with root := overlayAll fs.root dest.names items fs.root } :=
+  multi_run_ok_implies_overlaid fs c texts dest items fuel hd hn hg hnt hwf hdest hdd hfuel hsrc hnd hun hplain hlen fs' hok
+
+/-- `-L` onto an EXISTING destination compatible with the tree seen through the links (`s.erase`), when no place the
+operations read from lies at, below or above the target (`ReadsAway`, decidable; it follows from absence for a fresh
+target, `hout_of_absent`): every operation succeeds and the destination is overlaid with that tree -/
+theorem dereferenced_tree_overlays_an_existing_destination (fs : Fs) (c : Cfg) (hd : c.dereference = true) (hn : c.noClobber = false)
+    (src tb : RPath) (s : SNode) (fuel : Nat)
+    (hwf : FsEq fs fs)
+    (hsrc : AbsNames src)
+    (hder : derefS fs (fuel + 1) src.names [] = some s)
+    (htb : PlainTarget fs tb) (hne : tb.names ≠ [])
+    (hcompat : Compatible (fs.root.getAt tb.names) s.erase)
+    (hpar : ∃ es, fs.root.getAt tb.names.dropLast = some (.dir es))
+    (hout : ReadsAway s tb.names)
+    (hlen : tb.names.length + fuel < 255) :
+    ∃ fs', execOps fs c (walkEntry fs c none src tb (fuel + 1) [] []) = ⟨.ok, fs'⟩ ∧
+      FsEq fs' { fs with root := fs.root.setAt tb.names (Node.overlay (fs.root.getAt tb.names) s.erase) } :=
+  overlay_deref fs c hd hn src tb s fuel hwf hsrc hder htb hne hcompat hpar hout hlen
+
+/-- its hypotheses are satisfiable: `/S` = {a, l → a, m → /O/f} copied with `-L` onto an existing `/T/S` = {a (other
+content), z} gives {a, z, l, m} with `l`, `m` regular files -/
+example : ∃ fs', execOps DerefOverlayExample.exFs DerefOverlayExample.exCfg
+      (walkEntry DerefOverlayExample.exFs DerefOverlayExample.exCfg none (plainPath [DerefExample.nS])
+        (plainPath [DerefExample.nT, DerefExample.nS]) 2 [] []) = ⟨.ok, fs'⟩ ∧
+    FsEq fs' { DerefOverlayExample.exFs with root :=
+      (DerefOverlayExample.exFs.root.setAt [DerefExample.nT, DerefExample.nS] DerefOverlayExample.exDest) } :=
+  DerefOverlayExample.example_run
 
 end Xcp.C02
